@@ -735,6 +735,62 @@ def run_large(ctx, spec):
 # restart (harness-side mock of scipy.optimize.minimize as referenced from optimization_utils): after EVERY fit
 # the model's predictions are the dense posterior of the data of THAT fit under model.get_params()
 # --------------------------------------------------------------------------
+def check_model(ctx, viol, model, X, y, Xt, d, step):
+    """model.predict and the state's likelihood = dense posterior of (X, y) under model.get_params()"""
+    from syne_tune.optimizer.schedulers.searchers.bayesopt.gpautograd.constants import MIN_POSTERIOR_VARIANCE
+    t = len(Xt)
+    if model.states is None:
+        viol("model.states is None after fit: no usable posterior state", "no_state", step)
+        return
+    nd = model.states[0].num_data
+    if nd != X.shape[0]:
+        viol("posterior state is based on %d cases but fit was called with %d cases" % (nd, X.shape[0]),
+             "stale_state", step)
+    prm = {k_: float(v) for k_, v in model.get_params().items()}
+    ibs = [prm["kernel_inv_bw"]] * d if "kernel_inv_bw" in prm else [prm["kernel_inv_bw%d" % i] for i in range(d)]
+    ref = RefMatern(ibs, prm["kernel_covariance_scale"])
+    mval, noise = prm.get("mean_mean_value", 0.0), prm["noise_variance"]
+    (mu, var), = model.predict(Xt.copy())
+    mu, var = np.asarray(mu).reshape(-1), np.asarray(var).reshape(-1)
+    K_impl = np.asarray(model.likelihood.kernel(X, X))
+    sig = find_sigsq(K_impl, noise)
+    if sig is None:
+        return
+    A = ref.k(X, X) + sig * np.eye(len(X))
+    Kt = ref.k(X, Xt)
+    alpha, beta = np.linalg.solve(A, y.reshape(-1) - mval), np.linalg.solve(A, Kt)
+    sv = np.linalg.svd(A, compute_uv=False)
+    cond, ainv = float(sv[0] / sv[-1]), 1.0 / float(sv[-1])
+    na = len(X)
+    ktol = ref.tol(np.vstack([X, Xt]), np.vstack([X, Xt]))
+    nrm = lambda a: float(np.linalg.norm(a))   # noqa: E731
+    ce = C_TOL * (na + 2) * EPS * cond
+    mean_r = mval + Kt.T @ alpha
+    var_r = np.maximum(ref.diag(Xt) - np.sum(Kt * beta, axis=0), MIN_POSTERIOR_VARIANCE)
+    tolM = max(ce * (nrm(Kt[:, s_]) * nrm(alpha) + abs(mean_r[s_])) + 2 * ktol * float(np.sum(np.abs(alpha)))
+               + 4 * ainv * na * ktol * nrm(Kt[:, s_]) * nrm(alpha) for s_ in range(t))
+    tolV = max(ce * (nrm(Kt[:, s_]) * nrm(beta[:, s_]) + ref.cs) + ktol * (1 + 4 * float(np.sum(np.abs(beta[:, s_]))))
+               + 4 * ainv * na * ktol * nrm(Kt[:, s_]) * nrm(beta[:, s_]) for s_ in range(t))
+    sign, logdet = np.linalg.slogdet(A)
+    R_ = y.reshape(-1) - mval
+    nll_r = 0.5 * (float(np.sum(R_ * alpha)) + logdet + na * math.log(2 * math.pi))
+    tolN = (ce * (nrm(R_) * nrm(alpha) + na * (1 + abs(math.log(max(cond, 1.0))))) + 64 * EPS * abs(nll_r) * na
+            + na * ktol * (nrm(alpha) ** 2 + na * ainv))
+    nl = float(np.reshape(model.states[0].neg_log_likelihood(), (-1,))[0])
+    if sign > 0 and not abs(nl - nll_r) <= tolN:
+        viol("the posterior state's negative log likelihood %r differs from the dense expression %r for the current "
+             "parameters and data (tol %.3g)" % (nl, nll_r, tolN), "nlml", step)
+    ctx.h("fit_tol_useful", bool(tolM < 1e-4 * (1 + float(np.max(np.abs(mean_r))))))
+    if mu.shape != mean_r.shape or not np.all(np.abs(mu - mean_r) <= tolM):
+        viol("model.predict means differ from the dense posterior of the data of this fit under get_params() by %.3g "
+             "(tol %.3g)" % (float(np.max(np.abs(mu - mean_r))) if mu.shape == mean_r.shape else float("nan"), tolM),
+             "mean", step)
+    if var.shape != var_r.shape or not np.all(np.abs(var - var_r) <= tolV):
+        viol("model.predict variances differ from the dense posterior of the data of this fit under get_params() by "
+             "%.3g (tol %.3g)" % (float(np.max(np.abs(var - var_r))) if var.shape == var_r.shape else float("nan"), tolV),
+             "variance", step)
+
+
 def gen_fit(rng, k):
     d = rng.randint(1, 3)
     return dict(d=d, ard=bool(d > 1 and rng.random() < 0.6), nA=rng.randint(3, 7), nB_extra=rng.randint(2, 6),
@@ -767,47 +823,7 @@ def run_fit(ctx, spec):
                                      fit_reset_params=spec["reset"]))
 
     def check(model, X, y, step):
-        if model.states is None:
-            viol("model.states is None after fit: no usable posterior state", "no_state", step)
-            return
-        nd = model.states[0].num_data
-        if nd != X.shape[0]:
-            viol("posterior state is based on %d cases but fit was called with %d cases" % (nd, X.shape[0]),
-                 "stale_state", step)
-        prm = {k_: float(v) for k_, v in model.get_params().items()}
-        ibs = [prm["kernel_inv_bw"]] * d if "kernel_inv_bw" in prm else [prm["kernel_inv_bw%d" % i] for i in range(d)]
-        ref = RefMatern(ibs, prm["kernel_covariance_scale"])
-        mval, noise = prm.get("mean_mean_value", 0.0), prm["noise_variance"]
-        (mu, var), = model.predict(Xt.copy())
-        mu, var = np.asarray(mu).reshape(-1), np.asarray(var).reshape(-1)
-        K_impl = np.asarray(model.likelihood.kernel(X, X))
-        sig = find_sigsq(K_impl, noise)
-        if sig is None:
-            return
-        A = ref.k(X, X) + sig * np.eye(len(X))
-        Kt = ref.k(X, Xt)
-        alpha, beta = np.linalg.solve(A, y.reshape(-1) - mval), np.linalg.solve(A, Kt)
-        sv = np.linalg.svd(A, compute_uv=False)
-        cond, ainv = float(sv[0] / sv[-1]), 1.0 / float(sv[-1])
-        na = len(X)
-        ktol = ref.tol(np.vstack([X, Xt]), np.vstack([X, Xt]))
-        nrm = lambda a: float(np.linalg.norm(a))   # noqa: E731
-        ce = C_TOL * (na + 2) * EPS * cond
-        mean_r = mval + Kt.T @ alpha
-        var_r = np.maximum(ref.diag(Xt) - np.sum(Kt * beta, axis=0), MIN_POSTERIOR_VARIANCE)
-        tolM = max(ce * (nrm(Kt[:, s_]) * nrm(alpha) + abs(mean_r[s_])) + 2 * ktol * float(np.sum(np.abs(alpha)))
-                   + 4 * ainv * na * ktol * nrm(Kt[:, s_]) * nrm(alpha) for s_ in range(t))
-        tolV = max(ce * (nrm(Kt[:, s_]) * nrm(beta[:, s_]) + ref.cs) + ktol * (1 + 4 * float(np.sum(np.abs(beta[:, s_]))))
-                   + 4 * ainv * na * ktol * nrm(Kt[:, s_]) * nrm(beta[:, s_]) for s_ in range(t))
-        ctx.h("fit_tol_useful", bool(tolM < 1e-4 * (1 + float(np.max(np.abs(mean_r))))))
-        if mu.shape != mean_r.shape or not np.all(np.abs(mu - mean_r) <= tolM):
-            viol("model.predict means differ from the dense posterior of the data of this fit under get_params() by %.3g "
-                 "(tol %.3g)" % (float(np.max(np.abs(mu - mean_r))) if mu.shape == mean_r.shape else float("nan"), tolM),
-                 "mean", step)
-        if var.shape != var_r.shape or not np.all(np.abs(var - var_r) <= tolV):
-            viol("model.predict variances differ from the dense posterior of the data of this fit under get_params() by "
-                 "%.3g (tol %.3g)" % (float(np.max(np.abs(var - var_r))) if var.shape == var_r.shape else float("nan"), tolV),
-                 "variance", step)
+        check_model(ctx, viol, model, X, y, Xt, d, step)
 
     config = OptimizationConfig(lbfgs_tol=1e-6, lbfgs_maxiter=15, verbose=False, n_starts=spec["n_starts"])
     model = GaussianProcessRegression(kernel=Matern52(dimension=d, ARD=spec["ard"]), optimization_config=config,
@@ -827,3 +843,98 @@ def run_fit(ctx, spec):
     model.fit({"features": XB.copy(), "targets": yB.copy()})
     check(model, XB, yB, "refit, optimiser works")
     ctx.count(("gpf", spec), nontrivial=True)
+
+
+# --------------------------------------------------------------------------
+# operation sequences on GaussianProcessRegression: after every step that (re)computes the posterior state
+# (fit, recompute_states) predictions and the state's likelihood are the dense posterior for model.get_params()
+# and the CURRENT contents of the data dict. (After set_params / reset_params alone the state is stale by
+# contract: the caller has to call recompute_states, which is the next checked step.)
+# --------------------------------------------------------------------------
+SEQ_OPS = ["set_params", "reset_params", "recompute_same", "recompute_fresh", "grow_recompute", "fit", "fit_fail"]
+
+
+def gen_seq(rng, k):
+    d = rng.randint(1, 3)
+    ard = bool(d > 1 and rng.random() < 0.6)
+
+    def params():
+        prm = dict(noise_variance=loguniform(rng, 1e-4, 1.0), kernel_covariance_scale=loguniform(rng, 0.2, 5),
+                   mean_mean_value=rng.uniform(-1, 1))
+        if ard:
+            prm.update({"kernel_inv_bw%d" % i: loguniform(rng, 0.2, 5) for i in range(d)})
+        else:
+            prm["kernel_inv_bw"] = loguniform(rng, 0.2, 5)
+        return prm
+    ops = [dict(op=rng.choice(["fit", "recompute_fresh", "recompute_same"]))]
+    for _ in range(rng.randint(4, 8)):
+        op = rng.choice(SEQ_OPS + ["set_params", "recompute_same", "recompute_same"])
+        o = dict(op=op)
+        if op == "set_params":
+            o["params"] = params()
+        if op == "grow_recompute":
+            o["extra"] = rng.randint(1, 3)
+        ops.append(o)
+        if op in ("set_params", "reset_params") and rng.random() < 0.7:
+            ops.append(dict(op=rng.choice(["recompute_same", "recompute_same", "recompute_fresh"])))
+    return dict(d=d, ard=ard, n0=rng.randint(3, 6), t=rng.randint(2, 3), data_seed=rng.randrange(10 ** 9), ops=ops,
+                reset=bool(rng.random() < 0.5))
+
+
+def run_seq(ctx, spec):
+    import random
+    from unittest import mock
+    from syne_tune.optimizer.schedulers.searchers.bayesopt.gpautograd.kernel import Matern52
+    from syne_tune.optimizer.schedulers.searchers.bayesopt.gpautograd.gp_regression import GaussianProcessRegression
+    from syne_tune.optimizer.schedulers.searchers.bayesopt.gpautograd.constants import OptimizationConfig
+    from syne_tune.optimizer.schedulers.searchers.bayesopt.gpautograd import optimization_utils
+    d, t = spec["d"], spec["t"]
+    drng = random.Random(spec["data_seed"])
+
+    def rows(k_):
+        Xn = np.array([[drng.random() for _ in range(d)] for _ in range(k_)])
+        yn = np.array([[math.sin(4.0 * Xn[i, 0]) + 0.3 * drng.gauss(0, 1) + 0.5] for i in range(k_)])
+        return Xn, yn
+    X, y = rows(spec["n0"])
+    Xt = np.array([[drng.random() for _ in range(d)] for _ in range(t)])
+    config = OptimizationConfig(lbfgs_tol=1e-6, lbfgs_maxiter=10, verbose=False, n_starts=1)
+    model = GaussianProcessRegression(kernel=Matern52(dimension=d, ARD=spec["ard"]), optimization_config=config,
+                                      random_seed=spec["data_seed"] % 1000, fit_reset_params=spec["reset"])
+    data = {"features": X.copy(), "targets": y.copy()}
+    history = []
+
+    def viol(what, quantity, step):
+        ctx.violation("property", "[model sequence %s, step %s] %s" % (history, step, what),
+                      case=dict(kind="gps", spec=spec),
+                      signature=dict(component="gp_model_recompute", quantity=quantity, step=step.split("#")[0],
+                                     after=history[-2] if len(history) > 1 else None))
+    for i, o in enumerate(spec["ops"]):
+        op = o["op"]
+        history.append(op)
+        ctx.h("model_seq_op", op)
+        if op == "set_params":
+            prm = model.get_params()
+            prm.update(o["params"])
+            model.set_params(prm)
+            continue
+        if op == "reset_params":
+            model.reset_params()
+            continue
+        if op == "recompute_same":
+            model.recompute_states(data)
+        elif op == "recompute_fresh":
+            data = {"features": data["features"].copy(), "targets": data["targets"].copy()}
+            model.recompute_states(data)
+        elif op == "grow_recompute":
+            Xn, yn = rows(o["extra"])
+            data["features"] = np.vstack([data["features"], Xn])      # the SAME dict object, grown in place
+            data["targets"] = np.vstack([data["targets"], yn])
+            model.recompute_states(data)
+        elif op == "fit":
+            model.fit(data)
+        else:
+            with mock.patch.object(optimization_utils.optimize, "minimize", side_effect=_failing_minimize):
+                model.fit(data)
+        check_model(ctx, viol, model, np.asarray(data["features"]), np.asarray(data["targets"]), Xt, d, "%s#%d" % (op, i))
+    ctx.count(("gps", spec), nontrivial=any(a_["op"] in ("set_params", "reset_params", "grow_recompute")
+                                            for a_ in spec["ops"]))
